@@ -1,6 +1,7 @@
 package props
 
 import (
+	"encoding/binary"
 	"bytes"
 	"errors"
 	"fmt"
@@ -781,8 +782,11 @@ func c10Errors(c *xplor.Ctx) {
 		name     string
 		mul, add int
 	}
-	sizes := []sz{{"small", 0, 40}, {"L-1", 1, -1}, {"L", 1, 0}, {"L+1", 1, 1}, {"8L", 8, 0}, {"1000L", 1000, 0}}
+	sizes := []sz{{"small", 0, 40}, {"L-1", 1, -1}, {"L", 1, 0}, {"L+1", 1, 1}, {"8L", 8, 0}, {"1000L", 1000, 0}, {"announced-64MiB", 0, 40}}
 	t := sizes[c.Free("size", len(sizes))]
+	// the last size: the frame that carries the error ANNOUNCES 64 MiB in its envelope and then
+	// brings 40 bytes before the response ends - the announcement alone must be refused
+	announced := t.name == "announced-64MiB"
 	withMsg := c.Free("after-a-message", 2) == 1
 	c.Attr("target", tgt.String())
 	c.Attr("client", cl.String())
@@ -793,8 +797,8 @@ func c10Errors(c *xplor.Ctx) {
 		c.Skip()
 		return
 	}
-	if withMsg && tgt != wire.ConnectStream && tgt != wire.GRPCWeb {
-		c.Skip() // a flat error body cannot follow a message
+	if (withMsg || announced) && tgt != wire.ConnectStream && tgt != wire.GRPCWeb {
+		c.Skip() // a flat error body cannot follow a message (and has no envelope)
 		return
 	}
 	if cl.Family() == tgt.Family() {
@@ -848,6 +852,11 @@ func c10Errors(c *xplor.Ctx) {
 		rawLen = probe(n)
 		rep := build(n)
 		bodyLen = len(rep.Out.Body)
+		if announced {
+			offs := frameOffsets(rep.Out.Body)
+			binary.BigEndian.PutUint32(rep.Out.Body[offs[len(offs)-1]+1:], 64<<20)
+			rawLen = 64 << 20
+		}
 		return rep
 	}
 	cfg := world.Config{Protocols: []vanguard.Protocol{world.FormToProtocol(tgt)}, Codecs: []string{"proto"}, MaxMsg: uint32(L), TOpts: c10Options(acct)}
